@@ -13,6 +13,111 @@ import (
 // contract, the set of heaps (field-granular) it or its transitive callees may
 // store to, computed syntactically over the static call graph.
 
+// locSet says where in a heap a function may write: anywhere (all), only in the objects some of its
+// parameters point to (params: parameter indexes, receiver = 0), and/or only in objects allocated
+// during the call (fresh).
+type locSet struct {
+	all    bool
+	params map[int]bool
+	fresh  bool
+}
+
+func (l *locSet) merge(o *locSet) bool {
+	ch := false
+	if o.all && !l.all {
+		l.all, ch = true, true
+	}
+	if o.fresh && !l.fresh {
+		l.fresh, ch = true, true
+	}
+	for i := range o.params {
+		if !l.params[i] {
+			if l.params == nil {
+				l.params = map[int]bool{}
+			}
+			l.params[i], ch = true, true
+		}
+	}
+	return ch
+}
+
+// base classification of a value inside fn: parameter index, fresh (allocated in fn), or unknown (-1)
+const (
+	baseUnknown = -1
+	baseFresh   = -2
+)
+
+func classifyBase(v ssa.Value, fn *ssa.Function) int {
+	for i := 0; i < 8; i++ {
+		switch x := v.(type) {
+		case *ssa.Parameter:
+			for k, p := range fn.Params {
+				if p == x {
+					return k
+				}
+			}
+			return baseUnknown
+		case *ssa.Alloc, *ssa.MakeMap:
+			return baseFresh
+		case *ssa.MakeInterface:
+			if _, isPtr := x.X.Type().Underlying().(*types.Pointer); isPtr {
+				v = x.X
+				continue
+			}
+			return baseUnknown
+		case *ssa.ChangeType:
+			v = x.X
+			continue
+		case *ssa.ChangeInterface:
+			v = x.X
+			continue
+		}
+		return baseUnknown
+	}
+	return baseUnknown
+}
+
+func locOfBase(b int) *locSet {
+	switch {
+	case b >= 0:
+		return &locSet{params: map[int]bool{b: true}}
+	case b == baseFresh:
+		return &locSet{fresh: true}
+	}
+	return &locSet{all: true}
+}
+
+func (fb *frameBuilder) add(fn *ssa.Function, n string, l *locSet) bool {
+	fb.info.mods[fn][n] = true
+	m := fb.info.locs[fn]
+	if m == nil {
+		m = map[string]*locSet{}
+		fb.info.locs[fn] = m
+	}
+	if m[n] == nil {
+		m[n] = &locSet{}
+		m[n].merge(l)
+		return true
+	}
+	return m[n].merge(l)
+}
+
+type callRec struct {
+	callee *ssa.Function
+	args   []ssa.Value // aligned with callee.Params (nil entry: unknown)
+}
+
+func (f *FrameInfo) locsOf(fn *ssa.Function) map[string]*locSet {
+	out := map[string]*locSet{}
+	for n, l := range f.locs[fn] {
+		if f.restores[fn][n] {
+			continue
+		}
+		out[n] = l
+	}
+	return out
+}
+
 func (f *FrameInfo) modsOf(fn *ssa.Function) []string {
 	var out []string
 	for n := range f.mods[fn] {
@@ -31,15 +136,16 @@ type frameBuilder struct {
 	ng    *Gen // namer
 	info  *FrameInfo
 	calls map[*ssa.Function][]*ssa.Function
+	recs  map[*ssa.Function][]callRec
 	static map[*ssa.Function][]*ssa.Function // static calls only (no interface dispatch)
 	impls map[string][]*ssa.Function // method name -> in-repo methods
 }
 
 func computeFrames(P *Program, S *SpecSet) *FrameInfo {
-	info := &FrameInfo{mods: map[*ssa.Function]map[string]bool{}, restores: map[*ssa.Function]map[string]bool{}}
+	info := &FrameInfo{mods: map[*ssa.Function]map[string]bool{}, restores: map[*ssa.Function]map[string]bool{}, locs: map[*ssa.Function]map[string]*locSet{}}
 	ng := &Gen{P: P, S: S, heapSort: map[string]string{}, decl: map[string]string{}, globals: map[string]bool{}, typeIDs: map[string]int{}, strLits: map[string]string{}, cur: map[string]string{}, allMods: map[string]bool{}, blockMod: map[int]map[string]bool{}, oblSeen: map[string]int{}}
 	ng.curBlk = -1
-	fb := &frameBuilder{P: P, S: S, ng: ng, info: info, calls: map[*ssa.Function][]*ssa.Function{}, static: map[*ssa.Function][]*ssa.Function{}, impls: map[string][]*ssa.Function{}}
+	fb := &frameBuilder{P: P, S: S, ng: ng, info: info, calls: map[*ssa.Function][]*ssa.Function{}, recs: map[*ssa.Function][]callRec{}, static: map[*ssa.Function][]*ssa.Function{}, impls: map[string][]*ssa.Function{}}
 	var all []*ssa.Function
 	seen := map[*ssa.Function]bool{}
 	var addFn func(fn *ssa.Function)
@@ -105,17 +211,28 @@ func computeFrames(P *Program, S *SpecSet) *FrameInfo {
 			}
 		}
 	}
-	// fixed point over static calls
+	// fixed point over the call records (locations are translated through the arguments of each call)
 	for changed := true; changed; {
 		changed = false
 		for _, fn := range all {
-			for _, cal := range fb.calls[fn] {
-				for n := range info.mods[cal] {
-					if info.restores[cal][n] {
+			for _, rec := range fb.recs[fn] {
+				for n, ls := range info.locs[rec.callee] {
+					if info.restores[rec.callee][n] {
 						continue
 					}
-					if !info.mods[fn][n] {
-						info.mods[fn][n] = true
+					tr := &locSet{all: ls.all, fresh: ls.fresh}
+					for j := range ls.params {
+						var a ssa.Value
+						if j < len(rec.args) {
+							a = rec.args[j]
+						}
+						if a == nil {
+							tr.all = true
+							continue
+						}
+						tr.merge(locOfBase(classifyBase(a, fn)))
+					}
+					if fb.add(fn, n, tr) {
 						changed = true
 					}
 				}
@@ -196,42 +313,106 @@ func (fb *frameBuilder) storeNames(addr ssa.Value) []string {
 	return []string{ng.cellHeap(elem)}
 }
 
-func (fb *frameBuilder) contractMods(ctr *Contract, ce callee, c *ssa.CallCommon) []string {
+// contractMods resolves the modifies clauses of a contract at a call: heap name -> where.
+// Arguments and results are bound to recognisable dummy terms, so that a target rooted in an argument
+// (or in a result the contract declares fresh) can be classified; everything else is "anywhere".
+func (fb *frameBuilder) contractMods(ctr *Contract, ce callee, c *ssa.CallCommon, fn *ssa.Function) map[string]*locSet {
 	ng := fb.ng
 	var args []TV
+	var argVals []ssa.Value
 	if ce.isInvoke {
-		args = append(args, TV{"dummy", SInt, c.Value.Type()})
+		args = append(args, TV{"arg!0", SInt, c.Value.Type()})
+		argVals = append(argVals, c.Value)
 	}
 	for _, a := range c.Args {
-		args = append(args, TV{"dummy", sortOf(a.Type()), a.Type()})
+		args = append(args, TV{fmt.Sprintf("arg!%d", len(args)), sortOf(a.Type()), a.Type()})
+		argVals = append(argVals, a)
 	}
-	var out []string
-	func() {
-		defer func() {
-			if r := recover(); r != nil {
-				if _, ok := r.(error); !ok {
-					panic(r)
-				}
-			}
-		}()
-		pre, _ := ng.calleeEnv(ctr, ce, c, args, nil, map[string]string{})
-		for _, cl := range ctr.Clauses {
-			if cl.Kind != "modifies" {
-				continue
-			}
-			for _, m := range cl.Mods {
-				for _, l := range ng.resolveMod(m, pre) {
-					out = append(out, l.heap)
-				}
-			}
+	var results []TV
+	if ce.sig != nil {
+		rs := ce.sig.Results()
+		for i := 0; i < rs.Len(); i++ {
+			results = append(results, TV{fmt.Sprintf("res!%d", i), sortOf(rs.At(i).Type()), rs.At(i).Type()})
 		}
-	}()
+	}
+	// results the contract declares fresh
+	freshRes := map[string]bool{}
+	var walk func(e *Expr)
+	walk = func(e *Expr) {
+		if e == nil {
+			return
+		}
+		if e.Op == "call" && e.Name == "fresh" && len(e.Args) == 1 && e.Args[0].Op == "id" {
+			freshRes[e.Args[0].Name] = true
+		}
+		for _, a := range e.Args {
+			walk(a)
+		}
+	}
+	for _, cl := range ctr.Clauses {
+		if cl.Kind == "ensures" {
+			walk(cl.E)
+		}
+	}
+	out := map[string]*locSet{}
+	put := func(n string, l *locSet) {
+		if out[n] == nil {
+			out[n] = &locSet{}
+		}
+		out[n].merge(l)
+	}
+	for _, cl := range ctr.Clauses {
+		if cl.Kind != "modifies" {
+			continue
+		}
+		for _, m := range cl.Mods {
+			func() {
+				resolved := false
+				var names []string
+				defer func() {
+					if r := recover(); r != nil {
+						if _, ok := r.(error); !ok {
+							panic(r)
+						}
+						// unresolvable target: be conservative about the heaps we can name
+						if !resolved && m.Op == "sel" {
+							if h, _, _ := ng.ghostHeap(m.Name); h != "" {
+								put(h, &locSet{all: true})
+							}
+						}
+						_ = names
+					}
+				}()
+				pre, post := ng.calleeEnv(ctr, ce, c, args, results, map[string]string{})
+				modEnv := &Env{g: ng, vars: post.vars, heapState: map[string]string{}, pkg: pre.pkg, lookup: pre.lookup}
+				modEnv.old = modEnv
+				for _, l := range ng.resolveMod(m, modEnv) {
+					resolved = true
+					loc := &locSet{all: true}
+					var k int
+					if n, _ := fmt.Sscanf(l.ref, "arg!%d", &k); n == 1 && l.ref == fmt.Sprintf("arg!%d", k) && k < len(argVals) {
+						loc = locOfBase(classifyBase(argVals[k], fn))
+					} else if n, _ := fmt.Sscanf(l.ref, "res!%d", &k); n == 1 && l.ref == fmt.Sprintf("res!%d", k) {
+						// result-rooted: fresh when the contract says so
+						for name, tv := range post.vars {
+							if tv.T == l.ref && freshRes[name] {
+								loc = &locSet{fresh: true}
+							}
+						}
+					}
+					put(l.heap, loc)
+					if l.heap2 != "" {
+						put(l.heap2, loc)
+					}
+				}
+			}()
+		}
+	}
 	return out
 }
 
 func (fb *frameBuilder) direct(fn *ssa.Function) {
 	ng := fb.ng
-	mods := fb.info.mods[fn]
 	ng.fn = fn
 	ng.key = fb.P.KeyOf[fn]
 	if ng.key == "" {
@@ -254,9 +435,28 @@ func (fb *frameBuilder) direct(fn *ssa.Function) {
 	for _, a := range fb.S.Ats {
 		if a.Func == ng.key && a.Kind == "ghost" && a.LHS != nil && a.LHS.Op == "sel" {
 			if h, _, _ := ng.ghostHeap(a.LHS.Name); h != "" {
-				mods[h] = true
+				loc := &locSet{all: true}
+				if b := a.LHS.Args[0]; b != nil && b.Op == "id" {
+					for k, p := range fn.Params {
+						if p.Name() == b.Name {
+							loc = locOfBase(k)
+						}
+					}
+				}
+				fb.add(fn, h, loc)
 			}
 		}
+	}
+	alignArgs := func(cal *ssa.Function, c *ssa.CallCommon, invoke bool) []ssa.Value {
+		var av []ssa.Value
+		if invoke {
+			av = append(av, c.Value)
+		}
+		av = append(av, c.Args...)
+		if len(av) != len(cal.Params) {
+			return nil
+		}
+		return av
 	}
 	siteOrd := map[string]int{}
 	for _, b := range fn.Blocks {
@@ -266,30 +466,39 @@ func (fb *frameBuilder) direct(fn *ssa.Function) {
 				if baseIsLocalAlloc(v.Addr) {
 					continue
 				}
+				loc := &locSet{all: true}
+				if fa, ok := v.Addr.(*ssa.FieldAddr); ok {
+					elem := deref(fa.Type())
+					if !isStructT(elem) && !isArrayT(elem) {
+						loc = locOfBase(classifyBase(fa.X, fn))
+					}
+				}
 				for _, n := range fb.storeNames(v.Addr) {
-					mods[n] = true
+					fb.add(fn, n, loc)
 				}
 			case *ssa.MapUpdate:
 				if _, ok := v.Map.(*ssa.MakeMap); ok {
 					continue
 				}
 				has, val := ng.mapHeaps(v.Map.Type().Underlying().(*types.Map))
-				mods[has], mods[val] = true, true
+				loc := locOfBase(classifyBase(v.Map, fn))
+				fb.add(fn, has, loc)
+				fb.add(fn, val, loc)
 			case ssa.CallInstruction:
 				c := v.Common()
 				if bi, ok := c.Value.(*ssa.Builtin); ok {
 					switch bi.Name() {
 					case "append":
 						if sl, ok := c.Args[0].Type().Underlying().(*types.Slice); ok {
-							mods[ng.arrHeap(sl.Elem())] = true
+							fb.add(fn, ng.arrHeap(sl.Elem()), &locSet{all: true})
 						}
 					case "copy":
 						if sl, ok := c.Args[0].Type().Underlying().(*types.Slice); ok {
-							mods[ng.arrHeap(sl.Elem())] = true
+							fb.add(fn, ng.arrHeap(sl.Elem()), &locSet{all: true})
 						}
 					case "delete":
 						has, _ := ng.mapHeaps(c.Args[0].Type().Underlying().(*types.Map))
-						mods[has] = true
+						fb.add(fn, has, locOfBase(classifyBase(c.Args[0], fn)))
 					}
 					continue
 				}
@@ -299,24 +508,26 @@ func (fb *frameBuilder) direct(fn *ssa.Function) {
 					ce.siteKey = fmt.Sprintf("%s@%s#%d", ng.key, ce.label, siteOrd[ce.label])
 				}
 				if sc := fb.S.Contracts[ce.siteKey]; sc != nil && ce.siteKey != "" {
-					for _, n := range fb.contractMods(sc, ce, c) {
-						mods[n] = true
+					for n, l := range fb.contractMods(sc, ce, c, fn) {
+						fb.add(fn, n, l)
 					}
 					continue
 				}
 				if ce.fn != nil && inRepoFn(ce.fn) {
 					fb.calls[fn] = append(fb.calls[fn], ce.fn)
 					fb.static[fn] = append(fb.static[fn], ce.fn)
+					fb.recs[fn] = append(fb.recs[fn], callRec{ce.fn, alignArgs(ce.fn, c, false)})
 					continue
 				}
 				if ctr := ng.contractFor(ce); ctr != nil && ctr.Assumed {
-					for _, n := range fb.contractMods(ctr, ce, c) {
-						mods[n] = true
+					for n, l := range fb.contractMods(ctr, ce, c, fn) {
+						fb.add(fn, n, l)
 					}
 				}
 				if ce.isInvoke {
 					for _, impl := range fb.implsOf(c) {
 						fb.calls[fn] = append(fb.calls[fn], impl)
+						fb.recs[fn] = append(fb.recs[fn], callRec{impl, alignArgs(impl, c, true)})
 					}
 				}
 			}
